@@ -9,6 +9,8 @@
 package main
 
 import (
+	"encoding/hex"
+	"bytes"
 	"encoding/json"
 	"fmt"
 	"math/big"
@@ -34,7 +36,11 @@ type scenario struct {
 }
 
 // hostile kinds -> message + token answer to install
-var tokenKinds = []string{"second-failed", "third-failed", "all-failed", "two-results", "wrong-arity", "wrong-type", "api-error", "unknown-contract", "ok-but-mismatch"}
+var tokenKinds = []string{"second-failed", "third-failed", "all-failed", "two-results", "wrong-arity", "wrong-type", "api-error", "unknown-contract", "ok-but-mismatch",
+	// attestation-shaped events that name the SAME token as the genuine attestation of the scenario, with other
+	// claimed metadata (anyone can publish that on the governance stream), and a bridge-sent attestation whose
+	// symbol is the contract's symbol with a zero byte in the middle (another text, same letters)
+	"same-token-other-metadata", "same-token-interior-nul"}
 
 func legit(i int, kind string) alphh.Msg {
 	m := alphh.Msg{Tag: kind, Sender: alphh.BridgeID, Contract: alphh.GovID, Target: "2", Seq: fmt.Sprint(100 + i), Nonce: "00000001", Payload: alphh.TransferPayload(byte(i + 1)), CL: "1", Tx: alphh.TxID(10 + i)}
@@ -74,6 +80,18 @@ func hostile(i int, kind string) (alphh.Msg, map[string]alphh.TokenAnswer) {
 		tid := tokBase + fmt.Sprintf("%02x", i)
 		m.Payload, m.Target = alphh.AttestPayload(tid, 8, "EVIL", "Evil token"), "0"
 		switch kind {
+		case "same-token-other-metadata":
+			m.Payload = alphh.AttestPayload(tokOK, 9, "SYM", "Token name")
+			if i%2 == 1 {
+				m.Sender = alphh.BridgeID
+			}
+			return m, toks
+		case "same-token-interior-nul":
+			m.Payload = alphh.AttestPayload(tokOK, 8, "SY\x00M", "Token name")
+			m.Sender = alphh.BridgeID
+			return m, toks
+		}
+		switch kind {
 		case "unknown-contract":
 		case "ok-but-mismatch":
 			toks[alphh.AddressOf(tid)] = alphh.TokenAnswer{Kind: "ok", Symbol: "OTHER", Name: "Evil token", Decimals: 8}
@@ -106,7 +124,13 @@ func wellFormed(m alphh.Msg, toks map[string]alphh.TokenAnswer) bool {
 			return false
 		}
 		a, ok := toks[alphh.AddressOf(m.Payload[2:66])]
-		return ok && a.Kind == "ok" && a.Symbol == "SYM" && a.Name == "Token name" && a.Decimals == 8
+		raw, err := hex.DecodeString(m.Payload)
+		if err != nil || !ok || a.Kind != "ok" {
+			return false
+		}
+		// what the payload claims: decimals, symbol and name (32 bytes each, zero padding at the ends only)
+		sym, nam := string(bytes.Trim(raw[36:68], "\x00")), string(bytes.Trim(raw[68:100], "\x00"))
+		return a.Symbol == sym && a.Name == nam && a.Decimals == int(raw[35])
 	}
 	return true
 }
